@@ -256,7 +256,7 @@ func driverCtrl(c *Ctx) {
 		}
 	}
 	// (c) response constructors against every kind of request
-	for _, rsp := range []string{"select.rsp", "deselect.rsp", "linktest.rsp", "select.rsp", "deselect.rsp", "linktest.rsp", "select.rsp", "deselect.rsp", "linktest.rsp"} {
+	for rep, rsp := range []string{"select.rsp", "deselect.rsp", "linktest.rsp", "select.rsp", "deselect.rsp", "linktest.rsp", "select.rsp", "deselect.rsp", "linktest.rsp"} {
 		for _, rk := range append(append([]string{}, ctrlKinds...), "undefined", "undefined-ptype", "data message") {
 			if c.want(ci) {
 				g := c.gen(ci)
@@ -264,7 +264,8 @@ func driverCtrl(c *Ctx) {
 				g.r.Read(s4)
 				sid := uint16(g.pick(65536))
 				req := mkCtrl(rk, sid, s4, byte(g.pick(256)))
-				if _, isData := req.(*ast.DataMessage); !isData && g.pick(2) == 0 {
+				// (first round: as the constructors make it; second round: as it may arrive from the wire; third: either)
+				if _, isData := req.(*ast.DataMessage); !isData && (rep/3 == 1 || (rep/3 == 2 && g.pick(2) == 0)) {
 					// the same kind of request as it may arrive from the wire: header bytes 2 and 3 are not zero
 					h, _ := ast.VerifControlHeader(req)
 					h[2], h[3] = byte(1+g.pick(255)), byte(1+g.pick(255))
